@@ -136,3 +136,42 @@ def mark_failures(I):
                 res.append((s, v))
             return res
         table[name] = w
+
+
+def lib_functions(prog):
+    return [F for F in prog.funcs_all if F.file.startswith(prog.root) and "/test/" not in F.file and "/examples/" not in F.file]
+
+
+def child_exit_rule(ctx, prog, rule):
+    """the forked child leaves through _exit only.  exit() / quick_exit() in the child would run the handlers the application registered
+    with atexit (which may stop other handles: signals and reaps from a process that started nothing, or wait on a lock another
+    thread held at fork time: the parent then never gets its answer) and flush the parent's stdio buffers a second time."""
+    hits = []
+    funcs = lib_functions(prog)
+    for name in ("exit", "quick_exit"):
+        for F, n in callsites(prog, name):
+            if F in funcs:
+                hits.append(site_of(F, n))
+    n_exit = sum(1 for F, n in callsites(prog, "_exit") if F in funcs) + sum(1 for F, n in callsites(prog, "_Exit") if F in funcs)
+    ctx.ob(rule, "library: leaving the forked child", "the library never calls exit() or quick_exit(): the child side of a failed start ends "
+           "with _exit, which runs no handler of the application and touches none of its buffers", not hits and n_exit >= 1,
+           {"functions_scanned": len(funcs), "_exit_sites": n_exit, "exit_sites": hits[:4]})
+
+
+def clock_rule(ctx, prog, rule):
+    """deadlines and until-deadline waits are measured on a clock that advances with real time at (at least) millisecond resolution:
+    CLOCK_REALTIME, CLOCK_MONOTONIC, CLOCK_MONOTONIC_RAW, CLOCK_BOOTTIME or CLOCK_TAI - not a CPU-time clock (stands still while
+    the parent sleeps, runs N times too fast with N busy threads) and not a *_COARSE clock (advances once per scheduler tick)."""
+    OK = {0: "CLOCK_REALTIME", 1: "CLOCK_MONOTONIC", 4: "CLOCK_MONOTONIC_RAW", 7: "CLOCK_BOOTTIME", 11: "CLOCK_TAI"}
+    F = prog.fn("now")
+    calls = [c for c in F.calls("clock_gettime")]
+    if not calls:
+        ctx.floor_failures.append("%s: now() does not call clock_gettime (another time source?), no verdict" % rule)
+        return
+    for c in calls:
+        k = const_of(prog, c["c"][1])
+        if k is None:
+            ctx.floor_failures.append("%s: the clock id %s is not a constant this check can evaluate, no verdict" % (rule, expr_str(c["c"][1])[:40]))
+            continue
+        ctx.ob(rule, site_of(F, c), "the library's time source is a clock that follows real time with millisecond resolution", k in OK,
+               {"clock_id": k, "name": OK.get(k, "a CPU-time, coarse or other clock")})
